@@ -1456,6 +1456,26 @@ def e2e_checks(rng, n):
     from sharepoint2text.parsing.extractors.ms_legacy.rtf_extractor import read_rtf
     from sharepoint2text.parsing.extractors.mail.mbox_email_extractor import read_mbox_format_mail
     out = []
+    # systematic part (independent of the seed): for EVERY kind of unclosed tail a book whose first / middle chapter ends
+    # inside it — the chapters behind it keep their numbers AND their text
+    for tail_no, tail in enumerate(EPUB_TAILS):
+        for pos in (0, 1):
+            files = {f"c{j}.xhtml": f"TOK{j + 1}" for j in range(3)}
+            # build_epub picks the tail from a hash of name + text: choose a file name that selects THIS tail
+            nm = next(f"c{pos}x{k}.xhtml" for k in range(2000)
+                      if EPUB_TAILS[sum(map(ord, f"c{pos}x{k}.xhtml" + f"TOK{pos + 1}~")) % len(EPUB_TAILS)] == tail)
+            files = {(nm if j == pos else f"c{j}.xhtml"): f"TOK{j + 1}" + ("~" if j == pos else "") for j in range(3)}
+            items = [(f"it{j}", fn, "application/xhtml+xml") for j, fn in enumerate(files)]
+            spine = [f"it{j}" for j in range(3)]
+            rep = {"epub": {"items": [list(i) for i in items], "spine": spine, "files": files}}
+            try:
+                res = next(read_epub(build_epub(items, spine, files)))
+                us = [(u.get_metadata().unit_number, u.get_text().strip()) for u in res.iterate_units()]
+                want = [(j + 1, f"TOK{j + 1}") for j in range(3)]
+                if us != want:
+                    out.append(("epub.units-do-not-mirror-spine", f"epub of 3 chapters, chapter {pos + 1} ends inside {tail!r}: units {us}, expected {want}", rep))
+            except Exception as e:  # noqa: BLE001
+                out.append(("epub.raises", f"read_epub raised {type(e).__name__}", rep))
     for _ in range(n):
         # PPTX: slide k carries TOKk only; presentation order is a permutation; a part may be missing
         m = rng.randint(0, 6)
